@@ -463,6 +463,14 @@ var layoutHazards = []string{
 	`module m { %H include s { revision-date %V; } uses sg; leaf l { type st; } } submodule s { belongs-to m { prefix m; } revision 2019-01-01; typedef st { type int8; } grouping sg { leaf old { type st; } } } submodule s { belongs-to m { prefix m; } revision 2020-01-01; typedef st { type string; } grouping sg { leaf new { type st; } } }`,
 	`module m { %H revision 2020-01-01; augment /x:c { leaf a { type string; } } import x { prefix x; } deviation /x:c/x:d { deviate %D; } } module m { %H revision 2021-01-01; import x { prefix x; } augment /x:c { leaf a { type string; } } } module x { namespace "urn:x"; prefix x; container c { leaf d { type string; } } }`,
 	`module m { %H include m; } submodule m { belongs-to m { prefix m; } leaf l { type %T; } }`,
+	// a typedef whose union names the typedef itself more than once (the ring is met again while
+	// it is being reported), and required substatements that are only there as extension
+	// statements of the same name
+	`module m { %H typedef a { type union { type a; type a; } } leaf l { type a; } }`,
+	`module m { %H typedef a { type union { type string; type m:a; type union { type int8; type a; } } } typedef b { type union { type a; type b; type a; } } leaf l { type b; } }`,
+	`module m { %H extension type { argument a; } extension prefix; leaf x { m:type string; } typedef t { m:type string; } leaf y { type t; } }`,
+	`module m { %H import e { m:prefix e; } leaf x { type e:t; } } module e { namespace "urn:e"; prefix e; typedef t { type string; } }`,
+	`module m { prefix m; m:namespace "urn:m"; leaf x { type string; } } submodule s { m:belongs-to m; leaf y { type string; } }`,
 	// member lists with positions or values that collide, in types that get compared with each
 	// other: two members of one union, a typedef and a type that lists the members again
 	`module m { %H leaf l { type union { type bits { bit x { position %B; } bit y { position %B; } } type bits { bit w { position %B; } bit y { position %B; } } type bits { bit y; bit w; } } } }`,
